@@ -179,6 +179,32 @@ Definition spec_ctx_step (s : spec) (o : op) : spec :=
         sp_emit s [mkSI (sp_z s) (OImage id wpx hpx) default_style
                         (fun p => let q := flip p in spec_place s c x y (fst q / res, snd q / res))
                         (mkR 0 0 (inject_Z wpx) (inject_Z hpx))]
+  | FitImage r fit id wpx hpx =>
+      if ((wpx =? 0)%Z && (hpx =? 0)%Z) || qequal (rW r) 0 || qequal (rH r) 0 then s
+      else
+        (* documented meaning, written independently of fit_params: the image (cropped for ImageCover) is laid over a box
+           inside / equal to the rectangle and mirrored within that box in the flipped systems.
+           ImageFill: box = rectangle. ImageContain: the largest box of the image's aspect ratio inside the rectangle,
+           centred. ImageCover: box = rectangle, the image cropped symmetrically (whole pixels, rounded half up) on the axis
+           on which it is too long for the rectangle's aspect ratio. *)
+        let w := inject_Z wpx in let h := inject_Z hpx in
+        let wide := Qle_bool (h * rW r) (w * rH r) in   (* image is relatively wider than the rectangle: w/h >= rW/rH *)
+        let '(bx, by_, bw, bh, wc, hc) :=
+          if (fit =? 1)%Z then
+            if wide then (rx0 r, ry0 r + (rH r - rW r * h / w) / 2, rW r, rW r * h / w, wpx, hpx)
+            else (rx0 r + (rW r - rH r * w / h) / 2, ry0 r, rH r * w / h, rH r, wpx, hpx)
+          else if (fit =? 2)%Z then
+            (* at least one column / row of pixels is kept *)
+            if wide then let dx := Qfloor ((w - rW r * (h / rH r)) / 2 + (1 # 2)) in
+                         let dx := if (wpx <=? 2 * dx)%Z then (dx - 1)%Z else dx in (rx0 r, ry0 r, rW r, rH r, (wpx - 2 * dx)%Z, hpx)
+            else let dy := Qfloor ((h - rH r * (w / rW r)) / 2 + (1 # 2)) in
+                 let dy := if (hpx <=? 2 * dy)%Z then (dy - 1)%Z else dy in (rx0 r, ry0 r, rW r, rH r, wpx, (hpx - 2 * dy)%Z)
+          else (rx0 r, ry0 r, rW r, rH r, wpx, hpx) in
+        let flip : pfn := fun p => (if flipsX (ss_sys c) then inject_Z wc - fst p else fst p,
+                                    if flipsY (ss_sys c) then inject_Z hc - snd p else snd p) in
+        sp_emit s [mkSI (sp_z s) (OImage id wc hc) default_style
+                        (fun p => let q := flip p in spec_place s c bx by_ (fst q * bw / inject_Z wc, snd q * bh / inject_Z hc))
+                        (mkR 0 0 (inject_Z wc) (inject_Z hc))]
   | _ => s
   end end end.
 
